@@ -62,6 +62,23 @@ CHECKS = [
      "would-fail-if-active values, at every subschema position of every base schema leaves the error identities unchanged; "
      "likewise any keyword next to a $ref and the other draft's id spelling above a relative reference.",
      "vocabulary table written from the specifications; messages that embed the edited subschema are not compared; one open known finding (own id next to $ref)", "5 C10"),
+    ("C07", "model_checking", "explicit-state exploration of operation histories on one live validator (replay-from-scratch), deviation-bounded handler faults, differential against a fresh validator",
+     "Every operation history on one validator object (is_valid / exhaust / validate / take-k-then-close / take-k-then-drop / "
+     "resolve / resolving / in_scope / handler toggles) over three driver schemas per draft: un-merged to depth 3 (4 "
+     "thorough), merged by canonical state to depth 5 (7), with at most 2 handler-failure deviations; each transition "
+     "equals a fresh validator doing only that operation, and the scope stack, schema, store documents and instance are "
+     "unchanged afterwards.",
+     "relies on CPython reference counting for dropped iterators (the property's premise); canonical state argued in DESIGN 3.4; re-entrancy while an iterator is suspended is not claimed", "5 C07"),
+    ("C12", "exploration", "exhaustive enumeration of the finite product names x instances x checker configurations x drafts vs. a model of the documented semantics",
+     "The complete product of format names, instances of every JSON type, 230 checker configurations (none, default, "
+     "subsets, draft checkers, custom functions returning every truthiness / raising listed, sub-classed and unlisted "
+     "exceptions) and four drafts behaves as the 15-line model of the documented format semantics, including cause identity.",
+     "custom checkers registered on fresh instances only; class-wide registry asserted unchanged", "5 C12"),
+    ("C13", "exploration", "exhaustive enumeration of all short strings and all single edits of seeds per format vs. hand-written recognisers",
+     "Every string up to length 4-7 over a per-format alphabet, a full date grid and every single edit of ~20 seeds per format "
+     "(600k strings, 6.8M observations): ipv4 / ipv6 / date / email agree with hand-written recognisers, regex agrees with "
+     "re.compile, and for every registered format conforms() returns a bool and check() raises only FormatError.",
+     "recognisers in mc/ref/formats.py written from the RFCs (own selftest); idn-hostname and draft-3 time never-raises only; one open known finding (year 0000)", "5 C13"),
 ]
 
 
